@@ -313,7 +313,7 @@ def check_insert(case):
 
 
 def insert_domain(tier):
-    maxlen = 3 if tier == "quick" else 4
+    maxlen = 3 if tier == "quick" else 5
     seqs = [list(p) for n in range(1, maxlen + 1) for p in itertools.product(ITEMS, repeat=n)]
     dist_blocks = [None, ["R"], ["M", "R"], ["R", "M"], ["M"], ["R", "M", "R"]]
     for ks in seqs:
@@ -554,6 +554,7 @@ def _run(tier, seed):
     def part2():
         fails = []
         n = 0
+        maxlen = 3 if tier == "quick" else 5
         for c in insert_domain(tier):
             n += 1
             try:
@@ -563,7 +564,7 @@ def _run(tier, seed):
                 fails.append(("no-exception", c, "".join(traceback.format_exception_only(type(e), e)).strip()))
         rep.part("insert", "BaseFeatureWriter._insert on real feaLib objects: user statements kept in order under their tag, only the marker comment removed, split keeps both halves, "
                  "generated block at the marker's position, dependents in order, lookups before the first generated feature, class definitions on top",
-                 f"exhaustive: kern block = every sequence over {{comment, rule, marker}} up to length {3 if tier == 'quick' else 4} x 6 dist blocks x prefix/suffix statements x 3 feature lists, plus two-block and dependent-feature shapes",
+                 f"exhaustive: kern block = every sequence over {{comment, rule, marker}} up to length {maxlen} x 6 dist blocks x prefix/suffix statements x 3 feature lists, plus two-block and dependent-feature shapes",
                  n, fails, "vcheck.hooks.c17.check_insert")
 
     def part3():
@@ -596,6 +597,27 @@ def c17_hook(tier, seed):
     return _run(tier, seed)
 
 
+def f8_probe():
+    """the recorded finding F8 on the tree under check: a marker placed BEFORE a user GSUB lookup that uses a mark filtering set; the generated
+    kern lookup for a spacing mark allocates filtering set 0, the user's lookup moves to set 1 (same semantics, different GSUB bytes)"""
+    import logging
+
+    logging.disable(logging.CRITICAL)
+    fea = ("languagesystem DFLT dflt;\n@MFS_user = [tildecomb];\nfeature kern {\n    # Automatic Code\n} kern;\n"
+           "feature ccmp {\n    lookup u1 {\n        lookupflag UseMarkFilteringSet @MFS_user;\n        sub a by a.alt;\n    } u1;\n} ccmp;\n")
+    out = {}
+    for writers in ([], None):
+        ufo = observer_ufo({"fea": fea})
+        ufo["acutecomb"].width = 100  # a spacing mark: the kern writer builds a lookup with UseMarkFilteringSet
+        ufo.kerning[("a", "acutecomb")] = -15
+        tt, src = _compile(ufo, writers)
+        lk = tt["GSUB"].table.LookupList.Lookup[0]
+        out["without writers" if writers == [] else "with writers"] = (lk.LookupFlag, getattr(lk, "MarkFilteringSet", None), len(tt["GSUB"].compile(tt)))
+    for k, v in out.items():
+        print(k, "-> user GSUB lookup flag, MarkFilteringSet, GSUB length:", v)
+    return out
+
+
 def replay(path):
     with open(path) as f:
         pl = json.load(f)
@@ -615,3 +637,5 @@ if __name__ == "__main__":
         sys.path.insert(0, os.path.join(os.environ["VERIF_REPO"], "Lib"))
     if len(sys.argv) >= 3 and sys.argv[1] == "replay":
         sys.exit(replay(sys.argv[2]))
+    if len(sys.argv) >= 2 and sys.argv[1] == "f8":
+        f8_probe()
